@@ -29,18 +29,19 @@ def T(name, variant, *args, **kw):
 PARTS = {
   'C05': {
     'quick': [
-      T('probe8', 'base', 'prop=C05', 'keys=probe', 'vals=probe', 'nkeys=8', 'nvals=1'),
-      T('probe6x2', 'base', 'prop=C05', 'keys=probe', 'vals=probe', 'nkeys=6', 'nvals=2'),
-      T('probe-two5', 'base', 'prop=C05', 'keys=probe', 'vals=probe', 'two=1', 'nkeys=5', 'nvals=1'),
+      T('probe10', 'base', 'prop=C05', 'keys=probe', 'vals=probe', 'nkeys=10', 'nvals=1'),
+      T('probe6x2', 'base', 'prop=C05', 'keys=probe', 'vals=probe', 'nkeys=6', 'nvals=2', 'alias=1'),
+      T('probe-two6', 'base', 'prop=C05', 'keys=probe', 'vals=probe', 'two=1', 'nkeys=6', 'nvals=1'),
       T('probe-two3x2', 'base', 'prop=C05', 'keys=probe', 'vals=probe', 'two=1', 'nkeys=3', 'nvals=2'),
       T('probe-two4-asan', 'asan', 'prop=C05', 'keys=probe', 'vals=probe', 'two=1', 'nkeys=4', 'nvals=1'),
+      T('probe5x2-asan', 'asan', 'prop=C05', 'keys=probe', 'vals=probe', 'nkeys=5', 'nvals=2', 'alias=1'),
       T('probe6-asan', 'asan', 'prop=C05', 'keys=probe', 'vals=probe', 'nkeys=6', 'nvals=1'),
       T('intkey-probeval6', 'base', 'prop=C05', 'keys=int', 'vals=probe', 'nkeys=6', 'nvals=2'),
     ],
     'thorough': [
       T('probe11', 'base', 'prop=C05', 'keys=probe', 'vals=probe', 'nkeys=11', 'nvals=1'),
-      T('probe8x2', 'base', 'prop=C05', 'keys=probe', 'vals=probe', 'nkeys=8', 'nvals=2'),
-      T('probe-two6', 'base', 'prop=C05', 'keys=probe', 'vals=probe', 'two=1', 'nkeys=6', 'nvals=1'),
+      T('probe8x2', 'base', 'prop=C05', 'keys=probe', 'vals=probe', 'nkeys=8', 'nvals=2', 'alias=1'),
+      T('probe-two7', 'base', 'prop=C05', 'keys=probe', 'vals=probe', 'two=1', 'nkeys=7', 'nvals=1'),
       T('probe-two4x2', 'base', 'prop=C05', 'keys=probe', 'vals=probe', 'two=1', 'nkeys=4', 'nvals=2'),
       T('probe-two5-asan', 'asan', 'prop=C05', 'keys=probe', 'vals=probe', 'two=1', 'nkeys=5', 'nvals=1'),
       T('probe9-asan', 'asan', 'prop=C05', 'keys=probe', 'vals=probe', 'nkeys=9', 'nvals=1'),
@@ -65,7 +66,8 @@ PARTS = {
   'C10': {
     'quick': [
       T('eqhash-int6x2', 'base', 'prop=C10', 'keys=int', 'nkeys=6', 'nvals=2'),
-      T('eqhash-int9', 'base', 'prop=C10', 'keys=int', 'nkeys=9', 'nvals=1'),
+      T('eqhash-int10', 'base', 'prop=C10', 'keys=int', 'nkeys=10', 'nvals=1'),
+      T('eqhash-two-int5', 'base', 'prop=C10', 'keys=int', 'two=1', 'nkeys=5', 'nvals=1'),
       T('eqhash-str5x2', 'base', 'prop=C10', 'keys=str', 'nkeys=5', 'nvals=2'),
       T('eqhash-two-int3x2', 'base', 'prop=C10', 'keys=int', 'two=1', 'nkeys=3', 'nvals=2'),
       T('eqhash-two-int4-asan', 'asan', 'prop=C10', 'keys=int', 'two=1', 'nkeys=4', 'nvals=1'),
@@ -83,7 +85,7 @@ PARTS = {
   'C12': {
     'quick': [
       T('fail-int6x2', 'base', 'prop=C12', 'keys=int', 'nkeys=6', 'nvals=2'),
-      T('fail-int9', 'base', 'prop=C12', 'keys=int', 'nkeys=9', 'nvals=1'),
+      T('fail-int10', 'base', 'prop=C12', 'keys=int', 'nkeys=10', 'nvals=1'),
       T('fail-str6x2', 'base', 'prop=C12', 'keys=str', 'nkeys=6', 'nvals=2'),
       T('fail-probe6', 'base', 'prop=C12', 'keys=probe', 'vals=probe', 'nkeys=6', 'nvals=1'),
       T('fail-int5x2-asan', 'asan', 'prop=C12', 'keys=int', 'nkeys=5', 'nvals=2'),
@@ -93,9 +95,9 @@ PARTS = {
       T('fail-int8x2', 'base', 'prop=C12', 'keys=int', 'nkeys=8', 'nvals=2'),
       T('fail-int11', 'base', 'prop=C12', 'keys=int', 'nkeys=11', 'nvals=1'),
       T('fail-str7x2', 'base', 'prop=C12', 'keys=str', 'nkeys=7', 'nvals=2'),
-      T('fail-probe8', 'base', 'prop=C12', 'keys=probe', 'vals=probe', 'nkeys=8', 'nvals=1'),
+      T('fail-probe10', 'base', 'prop=C12', 'keys=probe', 'vals=probe', 'nkeys=10', 'nvals=1'),
       T('fail-int6x2-asan', 'asan', 'prop=C12', 'keys=int', 'nkeys=6', 'nvals=2'),
-      T('fail-str7-asan', 'asan', 'prop=C12', 'keys=str', 'nkeys=7', 'nvals=1'),
+      T('fail-str9-asan', 'asan', 'prop=C12', 'keys=str', 'nkeys=9', 'nvals=1'),
     ],
   },
 }
